@@ -86,8 +86,9 @@ def run(ck, facts, tier):
         leny = Poly.atom(("len", vkey(Y), None))
         g_count = Sym("and", *sorted([vkey(cel.cmp_sym("Ne", LEN, N)), vkey(Sym("not", vkey(Sym("and", *sorted([vkey(LSQ), vkey(cel.cmp_sym("Gt", LEN, N, True))], key=repr)))))], key=repr))
         g_len = cel.cmp_sym("Ne", LEN, leny)
-        conds = [{paths.norm_cond(g) for g in o["guards"]} for o in errs]
-        ck.check(r2, "guards", {paths.norm_cond(("if", vkey(g_count)))} in conds and any(paths.norm_cond(("if", vkey(g_len))) in c for c in conds),
+        # literals after De Morgan splitting, so `a != n && !(lsq && a > n)` and `!(a == n || (lsq && a > n))` are one guard
+        conds = [paths.atoms({paths.norm_cond(g) for g in o["guards"]}) for o in errs]
+        ck.check(r2, "guards", paths.atoms({paths.norm_cond(("if", vkey(g_count)))}) in conds and any(paths.atoms({paths.norm_cond(("if", vkey(g_len)))}) <= c for c in conds),
                  "the two guards are not: (len(tau) != n and not (allow_lsq and len(tau) > n)) -> Err; len(tau) != len(y) -> Err", where, detail=repr(conds)[:600],
                  sample="tau.len() != n && !(allow_lsq && tau.len() > n) ; tau.len() != y.len()")
         okk = len(oks) == 1
